@@ -246,3 +246,8 @@ Definition pre_check (c : cfg) (t : tree) : bool * bool :=
       let i := mkInv k vs sp man dups in (commit_pre_b c t i, same_type_b c t i)
   | _ => (false, false)
   end.
+
+(** the staged root inventory is complete (a fault inside its own write leaves it partial: then every later
+    command on the object is refused until reset) *)
+Definition staged_inv_ok (c : cfg) (t : tree) : bool :=
+  match read_file t (c_so c ++ [c_inv c]) with Some (CInv _ _ _ _ _) => true | _ => false end.
